@@ -177,6 +177,9 @@ def instrument(res, rec: Recorder, rejected_fn):
     (start / finish / discard), the resource's own handler (limit changes)."""
     rec.res = res
     q = res._queue
+    # proxy around whatever policy object the component actually installed
+    rec.policy = q.policy
+    q.policy = RecPolicy(q.policy, rec)
     q_orig = q.handle_event
 
     def q_handle(event):
@@ -296,9 +299,7 @@ def run_scenario(sc, tick_ns=10 ** 9, retarget_hops=False, end_tick=None):
     n = len(sc["arr"])
     rec = Recorder(tick_ns)
     prm = dict(PIPE_PRM, kind=sc["pol"], cap=sc["cap"])
-    inner = make_policy(prm, [1])
-    rec.policy = inner
-    pol = RecPolicy(inner, rec)
+    pol = make_policy(prm, [1])          # the configured policy
     sink = Sink(rec)
     svc = {j + 1: a["s"] for j, a in enumerate(sc["arr"])}
     tick_s = tick_ns // 10 ** 9
@@ -341,12 +342,228 @@ def run_scenario(sc, tick_ns=10 ** 9, retarget_hops=False, end_tick=None):
     except Exception as ex:      # noqa: BLE001 - recorded as an observation
         err = f"{type(ex).__name__}: {ex}"
     rec.flush()
-    rec.log.append(["end", 1 if end_tick is None else 0, rec.tick(), *rec.sample()])
+    rec.log.append(["end", 1 if end_tick is None else 0, rec.tick() if end_tick is None else end_tick,
+                    *rec.sample()])
     q = res._queue
     completed = res.stats.requests_completed if sc["wk"] == "server" else res.processed
-    return {"prm": prm, "rcap": rep_cap(inner), "W": [1], "P": [a["p"] for a in sc["arr"]], "F": [1] * n,
-            "lim0": sc["lim"], "idle": 1, "order": 1, "cnt": 1, "sink": 1, "hassc": 1,
-            "sc": sc, "fin": [q.stats_accepted, completed], "log": rec.log, "wk": sc["wk"]}, err
+    tr = _trace(prm, rep_cap(pol), [1], [a["p"] for a in sc["arr"]], [1] * n, sc["lim"], rec.log,
+                idle=1, order=1, cnt=1, sink=1, fin=[q.stats_accepted, completed], wk=sc["wk"], sc=sc)
+    return tr, err
 
 
 EMPTY_SC = {"wk": "server", "lim": 1, "cap": INF, "pol": "fifo", "arr": [], "sh": {"t": 0, "l": 0}}
+
+
+def _trace(prm, rcap, W, P, F, lim0, log, *, idle, order, cnt, sink, fin, wk, allof=1, sc=None):
+    return {"prm": prm, "rcap": rcap, "W": W, "P": P, "F": F, "lim0": lim0, "idle": idle, "order": order,
+            "cnt": cnt, "sink": sink, "allof": allof, "hassc": 1 if sc else 0, "sc": sc or EMPTY_SC,
+            "fin": fin, "log": log, "wk": wk}
+
+
+# ---------------------------------------------------------------------------
+# bare policy objects driven by direct calls (pure push/pop sequence machines)
+
+class _Null(Entity):
+    def handle_event(self, event):
+        return None
+
+
+_NULL = _Null("null")
+
+
+def run_policy_ops(prm, W, ops, seed=0):
+    """ops: ("psh", p, f) | ("pop",) | ("tick",).  Returns (trace, results) where results mirrors the
+    `hist` variable of PoliciesMC.tla."""
+    now = [0]
+    tick_ns = 10 ** 9
+    pol = make_policy(prm, W, clock=lambda: Instant(now[0] * tick_ns), tick_ns=tick_ns)
+    log, results, P, F = [], [], [], []
+    enq = 0
+    st = random.getstate()
+    random.seed(seed)
+    try:
+        for op in ops:
+            if op[0] == "psh":
+                i = len(P) + 1
+                P.append(op[1])
+                F.append(op[2])
+                ev = Event(time=Instant(now[0] * tick_ns), event_type="it", target=_NULL,
+                           context={"metadata": {"i": i, "p": op[1], "f": op[2]}})
+                acc = pol.push(ev)
+                enq += 1 if acc else 0
+                x = policy_drops(pol)
+                log.append(["psh" if acc else "rej", i, now[0], 0, 0, len(pol), x, 0])
+                results.append(("psh", op[1], op[2], 1 if acc else 0, len(pol)))
+            elif op[0] == "pop":
+                it = pol.pop()
+                x = policy_drops(pol)
+                i = 0 if it is None else item_of(it)
+                log.append(["pop0" if it is None else "pop", i, now[0], 0, 0, len(pol), x, 0])
+                results.append(("pop", i, len(pol), x))
+            else:
+                now[0] += 1
+                results.append(("tick",))
+    finally:
+        random.setstate(st)
+    x = policy_drops(pol)
+    log.append(["end", 0, now[0], 0, 0, len(pol), x, 0])
+    inner = pol.inner if isinstance(pol, BalkingQueue) else pol
+    pub = inner.stats.enqueued if hasattr(inner, "stats") and hasattr(inner.stats, "enqueued") else enq
+    tr = _trace(prm, rep_cap(pol), W, P, F, 0, log, idle=0, order=1, cnt=0, sink=0, fin=[pub, 0], wk="policy")
+    return tr, results
+
+
+# ---------------------------------------------------------------------------
+# a Server (any policy, any concurrency model) inside a real Simulation, arrivals through hop chains
+
+class LimitSetter(Entity):
+    """Harness entity: calls DynamicConcurrency.set_limit at scheduled instants."""
+
+    def __init__(self, model, rec):
+        super().__init__("limsetter")
+        self.model = model
+        self.rec = rec
+
+    def handle_event(self, event):
+        before = self.model.limit
+        self.model.set_limit(event.context["metadata"]["lim"])
+        if self.model.limit != before:
+            self.rec.rec("lim", 0)
+        return None
+
+
+def run_pipeline(cfg, tick_ns=10 ** 9, seed=0):
+    """cfg: prm, W, lim, arr=[dict(t,h,s,p,f,w)], optional dyn=[(t, lim)], weighted=bool, end_tick,
+    retarget (hops re-use the event object)."""
+    rec = Recorder(tick_ns)
+    prm, W = cfg["prm"], cfg["W"]
+    arr = cfg["arr"]
+    svc = {j + 1: a["s"] for j, a in enumerate(arr)}
+    holder = {}
+    pol = make_policy(prm, W, clock=lambda: holder["res"].now, tick_ns=tick_ns)
+    sink = Sink(rec)
+    weighted = cfg.get("weighted", False)
+    if cfg.get("dyn"):
+        model = DynamicConcurrency(cfg["lim"], min_limit=1, max_limit=None)
+    elif weighted:
+        model = WeightedConcurrency(cfg["lim"])
+    else:
+        model = cfg["lim"]
+    res = Server("srv", concurrency=model, service_time=ScriptedLatency(rec, svc, tick_ns), queue_policy=pol,
+                 downstream=sink)
+    holder["res"] = res
+    rec.sample_fn = lambda: (res.active_requests, res.concurrency, res._requests_rejected)
+    instrument(res, rec, lambda: res._requests_rejected)
+    maxh = max([a["h"] for a in arr], default=0)
+    hops, nxt = [], res
+    for k in range(maxh):
+        h = Hop(f"hop{k + 1}", nxt, retarget=cfg.get("retarget", False))
+        hops.append(h)
+        nxt = h
+    ents = [res, sink, *hops]
+    setter = None
+    if cfg.get("dyn"):
+        setter = LimitSetter(model, rec)
+        ents.append(setter)
+    kw = {}
+    if cfg.get("end_tick") is not None:
+        kw["end_time"] = Instant(cfg["end_tick"] * tick_ns)
+    st = random.getstate()
+    random.seed(seed)
+    err = None
+    try:
+        sim = Simulation(entities=ents, **kw)
+        evs = []
+        for j, a in enumerate(arr, start=1):
+            target = res if a["h"] == 0 else hops[a["h"] - 1]
+            md = {"i": j, "p": a["p"], "f": a["f"]}
+            if weighted:
+                md["weight"] = a.get("w", 1)
+            evs.append(Event(time=Instant(a["t"] * tick_ns), event_type="req", target=target,
+                             context={"metadata": md}))
+        for (t, lim) in cfg.get("dyn") or []:
+            evs.append(Event(time=Instant(t * tick_ns), event_type="setlim", target=setter, daemon=True,
+                             context={"metadata": {"lim": lim}}))
+        if cfg.get("shuffle") is not None:
+            random.Random(cfg["shuffle"]).shuffle(evs)
+        for e in evs:
+            sim.schedule(e)
+        sim.run()
+    except Exception as ex:      # noqa: BLE001
+        err = f"{type(ex).__name__}: {ex}"
+    finally:
+        random.setstate(st)
+    rec.flush()
+    # limit changes made from outside a handler of the component show up as samples only
+    end_t = cfg["end_tick"] if cfg.get("end_tick") is not None else rec.tick()
+    rec.log.append(["end", 0 if cfg.get("end_tick") is not None else 1, end_t, *rec.sample()])
+    n = len(arr)
+    tr = _trace(prm, rep_cap(pol), W, [a["p"] for a in arr], [a["f"] for a in arr], cfg["lim"], rec.log,
+                idle=0 if weighted else 1, order=1, cnt=1, sink=1, fin=[res.stats_accepted, res.stats.requests_completed],
+                wk="server_dyn" if cfg.get("dyn") else "server")
+    return tr, err
+
+
+# ---------------------------------------------------------------------------
+# topologies: routers and servers feeding one another (one trace per server)
+
+def run_topology(rng: random.Random, tick_ns=10 ** 9):
+    """front (hops) -> S1 -> RandomRouter -> {S2, S3} -> sink ; S2 may feed S3.  Arrivals in bursts."""
+    from happysimulator.components.random_router import RandomRouter
+
+    n = rng.randint(3, 8)
+    arr = []
+    for j in range(n):
+        arr.append({"t": rng.choice((0, 0, 1, 1, 2, 3)), "h": rng.randint(0, 2),
+                    "s": [rng.randint(0, 2) for _ in range(3)], "p": rng.randint(0, 2)})
+    sink = Sink(None)
+    recs, servers = [], []
+
+    def mk(name, lim, kind, cap, downstream, stage):
+        rec = Recorder(tick_ns)
+        prm = dict(PIPE_PRM, kind=kind, cap=cap)
+        pol = make_policy(prm, [1])
+        svc = {j + 1: a["s"][stage] for j, a in enumerate(arr)}
+        srv = Server(name, concurrency=lim, service_time=ScriptedLatency(rec, svc, tick_ns), queue_policy=pol,
+                     downstream=downstream)
+        rec.sample_fn = lambda: (srv.active_requests, srv.concurrency, srv._requests_rejected)
+        instrument(srv, rec, lambda: srv._requests_rejected)
+        recs.append((rec, prm, pol, srv, lim))
+        servers.append(srv)
+        return srv
+
+    kinds = ("fifo", "lifo", "prio")
+    caps = (1, 2, 3, INF, INF)
+    s3 = mk("s3", rng.randint(1, 2), rng.choice(kinds), rng.choice(caps), sink, 2)
+    s2 = mk("s2", rng.randint(1, 3), rng.choice(kinds), rng.choice(caps), rng.choice((sink, s3)), 1)
+    router = RandomRouter("router", targets=[s2, s3])
+    s1 = mk("s1", rng.randint(1, 3), rng.choice(kinds), rng.choice(caps), router, 0)
+    hops, nxt = [], s1
+    for k in range(2):
+        h = Hop(f"hop{k + 1}", nxt, retarget=rng.random() < 0.3)
+        hops.append(h)
+        nxt = h
+    st = random.getstate()
+    random.seed(rng.randrange(10 ** 6))
+    err = None
+    try:
+        sim = Simulation(entities=[*servers, router, sink, *hops])
+        for j, a in enumerate(arr, start=1):
+            target = s1 if a["h"] == 0 else hops[a["h"] - 1]
+            sim.schedule(Event(time=Instant(a["t"] * tick_ns), event_type="req", target=target,
+                               context={"metadata": {"i": j, "p": a["p"], "f": 1}}))
+        sim.run()
+    except Exception as ex:      # noqa: BLE001
+        err = f"{type(ex).__name__}: {ex}"
+    finally:
+        random.setstate(st)
+    traces = []
+    for rec, prm, pol, srv, lim in recs:
+        rec.flush()
+        rec.log.append(["end", 1, rec.tick(), *rec.sample()])
+        traces.append(_trace(prm, rep_cap(pol), [1], [a["p"] for a in arr], [1] * n, lim, rec.log,
+                             idle=1, order=1, cnt=1, sink=0, allof=0,
+                             fin=[srv.stats_accepted, srv.stats.requests_completed], wk="server"))
+    return traces, err, sorted(sink.got)
+
+STATIONS = []
